@@ -6,10 +6,9 @@ import (
 )
 
 func (c *Conn) handleLogin(tag string, dec *imapwire.Decoder) error {
-	var username, password string
-	if !dec.ExpectSP() || !dec.ExpectAString(&username) || !dec.ExpectSP() || !dec.ExpectAString(&password) || !dec.ExpectCRLF() {
-		return dec.Err()
-	}
+	// Refuse before reading the arguments: the credentials may come as
+	// synchronizing literals, which must not be solicited on a connection
+	// where they will be refused anyway
 	if err := c.checkState(imap.ConnStateNotAuthenticated); err != nil {
 		return err
 	}
@@ -19,6 +18,10 @@ func (c *Conn) handleLogin(tag string, dec *imapwire.Decoder) error {
 			Code: imap.ResponseCodePrivacyRequired,
 			Text: "TLS is required to authenticate",
 		}
+	}
+	var username, password string
+	if !dec.ExpectSP() || !dec.ExpectAString(&username) || !dec.ExpectSP() || !dec.ExpectAString(&password) || !dec.ExpectCRLF() {
+		return dec.Err()
 	}
 	if err := c.session.Login(username, password); err != nil {
 		return err
